@@ -301,6 +301,36 @@ def check_limit(model, rep, sx):
                extracted=f'i(D(w)) - ilim has {len(diff.n.t)} residual term(s)')
 
 
+def check_defined(model, rep):
+    """every rule is defined on its whole state space: evaluated with the sign checks of the constrained kinds inlined
+    (an Angle scaled by a signed factor raises ValueError when the factor is negative), no path of apply() may raise
+    except through a `raise` statement of its own (the documented missing-parameter error)"""
+    sx2 = SX(model)
+    sx2.loop_handler = reduction_loop
+    sx2.variable_kinds = VARIABLE_KINDS
+    sx2.inline_ctor_guards = True
+    for cls in sorted(c for c in model.subclasses('RuleBase', strict=True) if not model.is_abstract_class(c)):
+        m = model.find_member(cls, 'apply')
+        try:
+            outs = sx2.run(m.node, m.module, cls)
+        except CannotDecide as e:
+            rep.note('C15.defined', f'{cls}.apply', f'not evaluated with inlined sign checks: {e}', m.loc)
+            continue
+        bad = None
+        for o in outs:
+            if o.kind != 'raise':
+                continue
+            sv = [e for e in o.state.effects if e[0] == 'sign-violation']
+            if sv:
+                bad = (o, sv[-1])
+                break
+        rep.decide(bad is None, 'C15.defined', f'{cls}.apply',
+                   (f'`{bad[1][2]}` builds a {bad[1][1]} from a signed factor: on states with '
+                    f'`{bad[0].state.guards[-1].show(sx2.ctx)[:80]}` the rule raises ValueError instead of proposing the documented value') if bad else '',
+                   loc=f'{m.module}:{bad[1][3] if bad else m.node.lineno}')
+        rep.inspect(len(outs))
+
+
 def check(model, rep):
     rep.explain('C15: the four rule classes and Timer evaluated by gated value numbering (sensor reads inlined to the '
                 'target attribute, the efficiency product summarised as one reduction atom); activity windows compared '
@@ -317,6 +347,7 @@ def check(model, rep):
     check_reach(model, rep, sx)
     check_proportional(model, rep, sx)
     check_limit(model, rep, sx)
+    check_defined(model, rep)
     rep.require('C15.window', 3)
     rep.require('C15.value', 12)
     rep.require('C15.limit-identity', 1)
